@@ -915,8 +915,15 @@ func runC11Pair(c *Ctx) {
 			}
 			return true
 		}
-		if !onlyNilGuard(enter) || !onlyNilGuard(leave) {
+		if !onlyNilGuard(enter) || !onlyNilGuard(leave) || returnsWithout(check, enter) || returnsWithout(check, leave) {
 			bracket = false
+		}
+		// both are given the node being visited
+		for _, in := range []ssa.Instruction{enter, leave} {
+			cc := in.(ssa.CallInstruction).Common()
+			if len(cc.Args) < 2 || len(check.Params) < 2 || cc.Args[1] != ssa.Value(check.Params[1]) {
+				bracket = false
+			}
 		}
 		// nothing else is called before them
 		eachInstr(check, func(_ *ssa.BasicBlock, _ int, in ssa.Instruction) {
@@ -938,7 +945,25 @@ func runC11Pair(c *Ctx) {
 	}
 	// forwarders (when the callbacks are not called directly) hand the node to the untrusted checker when it exists
 	for _, f := range fwd {
-		c.ok(FuncName(f)+"|forwards", f.Pos(), "makes exactly one call of the untrusted checker's callback")
+		var cb ssa.CallInstruction
+		for _, want := range []string{"(*UntrustedInputChecker).OnVisitNodeEnter", "(*UntrustedInputChecker).OnVisitNodeLeave"} {
+			if cs := findCalls(f, want); len(cs) == 1 {
+				cb = cs[0]
+			}
+		}
+		construct := FuncName(f) + "|forwards"
+		switch {
+		case cb == nil:
+			c.bad(construct, f.Pos(), "the forwarder does not make exactly one call of the untrusted checker's callback")
+		case len(cb.Common().Args) < 2 || len(f.Params) < 2 || cb.Common().Args[1] != ssa.Value(f.Params[1]):
+			c.bad(construct, cb.Pos(), "the forwarder does not hand on the node it was given")
+		case !isUntrustedField(cb.Common().Args[0], f.Params[0]):
+			c.bad(construct, cb.Pos(), "the forwarder does not call the untrusted checker of its own receiver")
+		case returnsWithout(f, cb):
+			c.bad(construct, cb.Pos(), "the callback is skipped on a path on which the untrusted checker exists: the bottom-up matcher misses nodes (enter and leave calls no longer pair up)")
+		default:
+			c.ok(construct, cb.Pos(), "every path on which the receiver's untrusted checker is not nil hands the node to its callback")
+		}
 	}
 	// in Check: Init dominates the walk, the walk dominates OnVisitEnd
 	inits := findCalls(Check, "(*UntrustedInputChecker).Init")
@@ -951,6 +976,41 @@ func runC11Pair(c *Ctx) {
 	} else {
 		c.bad("(*ExprSemanticsChecker).Check|Init, walk, OnVisitEnd, Errs", Check.Pos(), "the untrusted checker is not initialised before / finished after the walk, or its errors are collected before OnVisitEnd: the last chain of an expression is never reported")
 	}
+}
+
+// isUntrustedField: v is a load of recv.untrusted.
+func isUntrustedField(v ssa.Value, recv ssa.Value) bool {
+	f, base := fieldLoad(v)
+	return f == "ExprSemanticsChecker.untrusted" && base == recv
+}
+
+// returnsWithout: some path from the entry of fn to a return does not execute `in`, although the receiver's untrusted
+// checker is not nil on it (the nil edges of tests of that field are not followed).
+func returnsWithout(fn *ssa.Function, in ssa.Instruction) bool {
+	seen := map[*ssa.BasicBlock]bool{fn.Blocks[0]: true}
+	work := []*ssa.BasicBlock{fn.Blocks[0]}
+	for len(work) > 0 {
+		b := work[len(work)-1]
+		work = work[:len(work)-1]
+		if b == in.Block() {
+			continue
+		}
+		last := b.Instrs[len(b.Instrs)-1]
+		if _, ok := last.(*ssa.Return); ok {
+			return true
+		}
+		skip := -1
+		if v, nilSucc, ok := nilTest(last); ok && len(fn.Params) > 0 && isUntrustedField(v, fn.Params[0]) {
+			skip = nilSucc
+		}
+		for i, s := range b.Succs {
+			if i != skip && !seen[s] {
+				seen[s] = true
+				work = append(work, s)
+			}
+		}
+	}
+	return false
 }
 
 // reachesAfter: b comes after a on every path that executes both (a's block dominates b's, or same block and later).
